@@ -121,13 +121,16 @@ Section Tree.
     wf_tree ROps 0 data perm d lo = true /\ wf_tree ROps 0 data perm d up = true.
   Proof.
     intros H. cbn [wf_tree] in H.
-    repeat (apply andb_true_iff in H; destruct H as [H ?]).
-    apply Nat.eqb_eq in H5, H6, H7.
+    apply andb_true_iff in H as [H Hwu]. apply andb_true_iff in H as [H Hwl].
+    apply andb_true_iff in H as [H Hcost]. apply andb_true_iff in H as [H Hsum].
+    apply andb_true_iff in H as [H Hbox]. apply andb_true_iff in H as [H Hiu].
+    apply andb_true_iff in H as [H Hil]. apply andb_true_iff in H as [Hsh Hcnt].
+    apply Nat.eqb_eq in Hiu, Hil, Hcnt.
     split; [assumption|]. split; [apply split_rows; lia|]. split; [lia|].
     split; [| split; [| split; [| split]]]; try assumption.
-    - intros r Hr. rewrite forallb_forall in H4. apply H4. exact Hr.
+    - intros r Hr. rewrite forallb_forall in Hbox. apply Hbox. exact Hr.
     - apply all2_eqb_R. assumption.
-    - cbn [oeqb oadd odiv ROps] in H2. apply Reqb_true in H2. rewrite oofnat_R in H2. exact H2.
+    - cbn [oeqb oadd odiv ROps] in Hcost. apply Reqb_true in Hcost. rewrite oofnat_R in Hcost. exact Hcost.
   Qed.
 
   Lemma wf_inv : forall t,
@@ -139,8 +142,8 @@ Section Tree.
     induction t as [i | i lo IHlo up IHup]; intros Hwf Hrows.
     - (* leaf *)
       cbn [wf_tree] in Hwf.
-      repeat (apply andb_true_iff in Hwf; destruct Hwf as [Hwf ?]).
-      rename H into Hcost, H0 into Hsum, H1 into Hall, H2 into Hsh.
+      apply andb_true_iff in Hwf as [Hwf Hcost]. apply andb_true_iff in Hwf as [Hwf Hsum].
+      apply andb_true_iff in Hwf as [Hwf Hall]. apply andb_true_iff in Hwf as [Hwf Hsh].
       apply Nat.leb_le in Hwf. cbn [info_of].
       destruct (info_shape_lens _ Hsh) as (Hlc & _ & Hls).
       assert (Heq : forall r, In r (rows (Leaf i)) -> row r = n_center i).
